@@ -144,6 +144,8 @@ class StepMonitor:
         self.budget = None
         self.lines: set[tuple[str, int]] = set()
         self.tripped_stack: str | None = None
+        self.failpoint = None
+        self.failpoint_fired_at: str | None = None
         self._mon = sys.monitoring
         self._active = False
         self._coverage = coverage
@@ -172,9 +174,22 @@ class StepMonitor:
         self.steps = 0
         self.budget = budget
         self.tripped_stack = None
+        self.failpoint = None
+
+    def arm_failpoint(self, after_steps: int, exc: BaseException, only_in: str | None = None) -> None:
+        """Source-free failpoint: raise `exc` out of the `after_steps`-th line event from now (optionally only counting
+        lines of files whose path contains `only_in`) - e.g. KeyboardInterrupt for a Ctrl-C in the middle of an operation."""
+        self.failpoint = [after_steps, exc, only_in, False]
 
     def _on_line(self, code, line):
         self.steps += 1
+        fp = self.failpoint
+        if fp is not None and (fp[2] is None or fp[2] in code.co_filename):
+            fp[0] -= 1
+            if fp[0] <= 0:
+                self.failpoint = None
+                self.failpoint_fired_at = f"{code.co_filename.split(REPO_MARK)[-1]}:{line}"
+                raise fp[1]
         if self.budget is not None and self.steps > self.budget:
             self.budget = None  # raise once
             self.tripped_stack = "".join(traceback.format_stack(sys._getframe(1), limit=12))
